@@ -113,6 +113,9 @@ def work_tiny(arg, timeout_ms=3000):
 
 
 # ------------------------------------------------------------------ (B) medium contents
+_gc = {}
+
+
 def gen(kind, n, seed):
     if kind == "rand":
         return core.prng_bytes(n, seed)
@@ -127,6 +130,10 @@ def gen(kind, n, seed):
         return bytes(out[:n])
     if kind == "zeros":
         return bytes(n)
+    if kind == "edger":
+        if ("edger", seed) not in _gc:
+            _gc[("edger", seed)] = core.prng_bytes(2200000, seed + 5)
+        return _gc[("edger", seed)][:n]
     if kind == "record":
         rec = core.prng_bytes(1024, seed + 2)
         return (rec * (n // 1024 + 1))[:n]
@@ -231,6 +238,23 @@ def medium_items(ctx):
     big = gen("zeros", 11000000, ctx.seed)
     for cname, cline in (("none manual min=10485761 alone", "cfg comp=0 manual=1 min=10485761"), ("none auto min=10485761 alone", "cfg comp=0 manual=0 min=10485761")):
         items.append(("zeros/%d %s seg=whole" % (len(big), cname), cline, big, segmentation(len(big), "whole"), "32768"))
+    # value-dependent shapes: every header integer (chunk size, stored size, index size, header size, chunk count) on and around
+    # the 7-bit boundaries of the variable-length integer encoding
+    src = gen("edger", 2200000, ctx.seed)
+    zsrc = bytes(2200000)
+    edge = [127, 128, 129, 255, 256, 16383, 16384, 16385, 16447, 16511, 16512] + ([2097151, 2097152, 2097153, 2113535, 2113536] if thorough else [2097152])
+    for sz in edge:
+        for cname, cline, data in (("none manual", "cfg comp=0 manual=1", src), ("zstd manual", "cfg comp=2 manual=1", src), ("zstd manual zeros", "cfg comp=2 manual=1", zsrc)):
+            if sz > 100000 and cname != "none manual" and not thorough:
+                continue
+            content = data[:sz + 5]
+            items.append(("%s/%d %s seg=chunk-of-%d" % ("zeros" if data is zsrc else "edger", len(content), cname, sz), cline, content, "w%d,e,W" % sz, "32768"))
+        items.append(("edger/%d none auto max=%d seg=whole" % (sz * 2 + 3, sz), "cfg comp=0 manual=0 max=%d%s" % (sz, " min=%d" % sz if sz < 8192 else ""), src[:sz * 2 + 3], "W", "32768"))
+    for nch in [5, 6, 7, 8, 9] + list(range(903, 921)) + ([127, 128, 129, 16383, 16384] if thorough else [127, 128]):
+        for cname, cline in (("none manual", "cfg comp=0 manual=1"), ("none manual sha256", "cfg comp=0 manual=1 chash=1"), ("zstd manual sha1", "cfg comp=2 manual=1 chash=0")):
+            if nch > 1000 and cname != "none manual":
+                continue
+            items.append(("edger/%d %s seg=%d-one-byte-chunks" % (nch, cname, nch), cline, src[:nch], ",".join(["w1,e"] * nch), "32768"))
     # sizes beyond 32 bits: the options take a ssize_t.  Either the value is refused or it means what it says
     content = gen("rand", 20000, ctx.seed)
     for cname, cline in (("none manual min=500 max=1000 then max=2^32+100", "cfg comp=0 manual=1 max=1000 min=500 max2=4294967396"),
